@@ -35,6 +35,13 @@ Proof. exact unwrap_ret_return. Qed.
 Theorem C16_unwrap_plain : forall fuel v, (forall vs, v <> VRet vs) -> unwrap_ret (S fuel) v = v.
 Proof. exact unwrap_ret_value. Qed.
 
+(* the first return reached ends the body: everything after it is skipped *)
+Theorem C16_return_skips_the_rest : forall G fuel st s rest acc vs st1,
+  eval_stmt G fuel st s = ROk (VRet vs, st1) ->
+  eval_stmts G (S fuel) st (s :: rest) acc = ROk (VRet (acc ++ [VRet vs]), st1).
+Proof. exact block_return_skips_rest. Qed.
+Print Assumptions C16_return_skips_the_rest.
+
 Print Assumptions C16_too_few.
 Print Assumptions C16_arg_failure.
 Print Assumptions C16_call.
